@@ -91,7 +91,8 @@ def rule_r1(ctx: Ctx) -> None:
     # DSDLDefinition.read: a fault of the definition itself (no location yet) leaves with the definition's own path, same object
     rd = ctx.func("_dsdl_definition.DSDLDefinition.read")
     own = R.own_definition(ctx, "ns.sub.T", 1, 2)
-    o = R.read_own(ctx, own, [], parse_fails=1)
+    w0 = R.World()
+    o = R.read_own(ctx, own, [R.ADef(w0, "zz.First", 1, 0), R.ADef(w0, "ns.sub.U", 1, 0)], parse_fails=1)
     ctx.count()
     exc = o.get("exc")
     good = o["raised"] == "DSDLSyntaxError" and exc is not None and str(getattr(exc, "path", None)) == "/w/ns/sub/T.1.2.dsdl"
@@ -259,7 +260,7 @@ def rule_r3(ctx: Ctx) -> None:
         samples = {"end_of_line": [("\n", 1), ("\r\n", 1)]}.get(owner)
         if samples is None:
             q = "'" if "'" in pat else ('"' if '"' in pat else "")
-            samples = [(q + body + q, body.count("\n")) for body in ("ab", "a\nb", "\n\n\n", "a\r\nb\n")]
+            samples = [(q + body + q, body.count("\n")) for body in ("ab", "a\nb", "\n\n\n", "a\r\nb\n", "a\x0cb", "\x0b\x1c\x1d\x1e\x85", "\u2028\u2029", "a\x0c\nb\u2028\n", "a\rb")]
         bad = []
         for text, k in samples:
             me, b_, run_, hook = pm.fresh()
@@ -347,7 +348,7 @@ def rule_r5_r6(ctx: Ctx) -> None:
     pm = ParserModel(ctx)
     bad = []
     for prefix in ([], [Line("B")], [Line("C", comment=" c"), Line("W")], [Line("F", "a"), Line("C", comment=" d"), Line("B")]):
-        for pr in (Line("X", directive="print", value=("Rational", 7)), Line("D", directive="print")):
+        for pr in (Line("X", directive="print", value=("Rational", 7)), Line("D", directive="print"), Line("X", directive="print", value=("String", "form\x0cfeed\x0b\x1c\x85\u2028\u2029")), Line("X", directive="print", value=("String", "raw\nbreak\x0c"))):
             lines = [Line("D")] + prefix + [pr, Line("F", "z")]
             r = parse_lines(pm, lines, True)
             ctx.count()
@@ -364,8 +365,13 @@ def rule_r8(ctx: Ctx) -> None:
 
     ctx.rule("C17.R8", "a fault is reported at the line of the statement it lies in - also when the statement is committed lazily several lines further down, when it follows blank / comment lines or a multi-line string literal, and however the text ends", min_instances=3)
     pm = ParserModel(ctx)
-    prefixes = [[], [Line("B")], [Line("C", comment=" c")], [Line("W"), Line("B")], [Line("F", "ok")], [Line("F", "ok", comment=" t"), Line("C", comment=" d")], [Line("X", directive="print", value=("String", "two\nlines"))]]
-    suffixes = [[], [Line("C", comment=" doc")], [Line("C", comment=" doc"), Line("C", comment=" more")], [Line("B")], [Line("W")], [Line("C", comment=" doc"), Line("B"), Line("B")], [Line("F", "next")], [Line("D", directive="print")], [Line("B"), Line("B"), Line("K", "later")]]
+    prefixes = [[], [Line("B")], [Line("C", comment=" c")], [Line("W"), Line("B")], [Line("F", "ok")], [Line("F", "ok", comment=" t"), Line("C", comment=" d")], [Line("X", directive="print", value=("String", "two\nlines"))], [Line("X", directive="print", value=("String", "form\x0cfeed\u2028sep"))], [Line("P")], [Line("K", "ok")]]
+    suffixes = [
+        [], [Line("C", comment=" doc")], [Line("C", comment=" doc"), Line("C", comment=" more")], [Line("B")], [Line("W")], [Line("C", comment=" doc"), Line("B"), Line("B")],
+        # every kind of statement that can follow directly (it is the one that makes the pending attribute commit)
+        [Line("F", "next")], [Line("K", "next")], [Line("P")], [Line("D", directive="print")], [Line("X", directive="print", value=("Rational", 1))], [Line("X", directive="assert", value=("Boolean", True))],
+        [Line("C", comment=" doc"), Line("P")], [Line("C", comment=" doc"), Line("K", "next")], [Line("B"), Line("B"), Line("K", "later")],
+    ]
     bad_lazy, bad_now = [], []
     n = 0
     for pre in prefixes:
